@@ -93,11 +93,24 @@ theorem representableY_int (k : IKind) (v : Int) (h : Spec.reprGo k v = true) :
   exact reprY_of_reprGo k v h
 
 /-- `convertUntyped` of an untyped integer constant to an integer type that Go finds representable -/
-theorem convertUntypedY_int (n : NS) (u : UK) (v : Int) (k : IKind) (hty : n.ty = .u u) (hrv : n.rv = .c (.int v))
-    (h : Spec.reprGo k v = true) :
-    convertUntypedY F0 n (.t (.i k)) = .ok (some { n with rv := .r (.i k) (.int v), ty := .t (.i k), self := false }) := by
-  simp only [convertUntypedY, hty, Ty.untyped, Bool.not_true, Bool.false_eq_true, if_false, hrv,
+theorem convertUntypedY_int (n : NS) (u : UK) (hu : u = .int ∨ u = .rune) (v : Int) (k : IKind) (hty : n.ty = .u u)
+    (hrv : n.rv = .c (.int v)) (h : Spec.reprGo k v = true) :
+    convertUntypedY F0 n (.t (.i k)) =
+      .ok (some { n with rv := .r (.i k) (.int v), ty := .t (.i k), self := false, set := false }) := by
+  have hb : ((Ty.u u).isBool != (BT.i k == BT.bool)) = false := by rcases hu with rfl | rfl <;> rfl
+  simp only [convertUntypedY, hty, Ty.untyped, Bool.not_true, Bool.false_eq_true, if_false, hrv, hb, Bool.and_false,
     representableY_int k v h, convertConstY_int k v h, bind_ok]
+
+/-- … and to one in which it is not representable: the error return -/
+theorem convertUntypedY_int_none (n : NS) (u : UK) (hu : u = .int ∨ u = .rune) (v : Int) (k : IKind) (hty : n.ty = .u u)
+    (hrv : n.rv = .c (.int v)) (h : Spec.reprGo k v = false) :
+    convertUntypedY F0 n (.t (.i k)) = .ok none := by
+  have hb : ((Ty.u u).isBool != (BT.i k == BT.bool)) = false := by rcases hu with rfl | rfl <;> rfl
+  have hrep : representableY F0 (.int v) (.i k) = false := by
+    simp only [representableY, CV.toInt]
+    show reprY Expected.C03.reprFacts k v = false
+    rw [reprY_eq_reprGo]; exact h
+  simp [convertUntypedY, hty, Ty.untyped, hrv, hb, hrep]
 
 theorem vInt_refl_signed (k : IKind) (hk : k.signed = true) (v : Int) : vInt (.r (.i k) (.int v)) = .ok v := by
   simp [vInt, hk]
@@ -236,5 +249,71 @@ theorem Inv.of_untyped (n : NS) (u : UK) (v : Int) (hu : u = .int ∨ u = .rune)
 theorem Inv.of_typed (n : NS) (k : IKind) (v : Int) (hty : n.ty = .t (.i k)) (hrv : n.rv = .r (.i k) (.int v))
     (hr : Spec.reprGo k v = true) : Inv n ⟨.int v, .t (.i k)⟩ :=
   ⟨hty, by simp [repOf, hr, hrv]⟩
+
+/-- agreement of one walk of the interpreter model with the specification on a node: both yield the same integer
+    constant (value and type, `Inv`), or both reject -/
+inductive Rel : Res NS → Res Spec.GV → Prop where
+  | ok (n : NS) (g : Spec.GV) (h : Inv n g) : Rel (.ok n) (.ok g)
+  | rej : Rel .reject .reject
+
+theorem Rel.of_ok {n : NS} {g : Spec.GV} {r : Res NS} {s : Res Spec.GV} (hr : r = .ok n) (hs : s = .ok g) (h : Inv n g) :
+    Rel r s := by subst hr hs; exact .ok n g h
+
+theorem Rel.of_rej {r : Res NS} {s : Res Spec.GV} (hr : r = .reject) (hs : s = .reject) : Rel r s := by
+  subst hr hs; exact .rej
+
+/-- an in-range integer has at most 64 bits -/
+theorem bitLen_of_repr (k : IKind) (v : Int) (h : Spec.reprGo k v = true) : bitLen v ≤ 64 := by
+  rw [bitLen_le_iff]
+  rw [reprGo_iff] at h
+  cases k <;> simp only [IKind.minVal, IKind.maxVal, IKind.signed, IKind.bits, if_true, if_false, Bool.false_eq_true] at h <;>
+    omega
+
+/-! ### the two checks around a fold (typecheck.go constExpr, constOverflow) -/
+
+@[simp] theorem F0_chk : F0.eval.chk = Expected.C03.checkFacts := rfl
+
+theorem constOverflowY_c (r : Int) :
+    constOverflowY F0 (.c (.int r)) = if bitLen r > 512 then .reject else .ok () := by
+  simp [constOverflowY, Expected.C03.checkFacts, constValueY]
+
+theorem constOverflowY_r (k : IKind) (r : Int) (h : Spec.reprGo k r = true) :
+    constOverflowY F0 (.r (.i k) (.int r)) = .ok () := by
+  have := bitLen_of_repr k r h
+  have hn : ¬ (bitLen r > 512) := by omega
+  simp [constOverflowY, Expected.C03.checkFacts, constValueY, hn]
+
+/-- two untyped constants (or an untyped constant shifted): nothing to check -/
+theorem constExprY_cc (a : Act) (un : Bool) (c0 c1 : NS) (h0 : isConstRV c0.rv = true) (h1 : isConstRV c1.rv = true) :
+    constExprY F0 a un c0 c1 = .ok () := by
+  simp [constExprY, h0, h1]
+
+theorem tokOf_arith (a : Act) (ha : isArith a = true) :
+    F0.eval.tokOf a = (match a with
+      | .add => Tok.add | .sub => Tok.sub | .mul => Tok.mul | .quo => Tok.quo | .rem => Tok.rem
+      | .and => Tok.and | .or => Tok.or | .xor => Tok.xor | .andNot => Tok.andNot | _ => Tok.other) := by
+  cases a <;> simp [isArith] at ha <;> rfl
+
+/-- two operands of one integer type: the exact result must be defined and representable in that type -/
+theorem constExprY_rr (a : Act) (ha : isArith a = true) (c0 c1 : NS) (k : IKind) (p q : Int)
+    (h0ty : c0.ty = .t (.i k)) (h0 : c0.rv = .r (.i k) (.int p)) (h1 : c1.rv = .r (.i k) (.int q)) :
+    constExprY F0 a false c0 c1 =
+      if needsNZ a = true ∧ q = 0 then .reject
+      else if Spec.reprGo k (iop a p q) = true then .ok () else .reject := by
+  have hcmp : isCmpAct a = false := by cases a <;> simp [isArith] at ha <;> rfl
+  have hsh : isShiftAct a = false := by cases a <;> simp [isArith] at ha <;> rfl
+  have hsign : ∀ z : Int, ((CV.int z).sign == 0) = decide (z = 0) := by
+    intro z; simp only [CV.sign]
+    by_cases h0 : z = 0
+    · subst h0; simp
+    · by_cases hneg : z < 0 <;> simp [h0, hneg]
+  have hrep : ∀ r : Int, representableY F0 (.int r) (.i k) = Spec.reprGo k r := by
+    intro r; simp only [representableY, CV.toInt]; exact reprY_eq_reprGo k r
+  have htok := tokOf_arith a ha
+  cases a <;> simp [isArith] at ha <;>
+    simp [constExprY, hcmp, hsh, h0, h1, h0ty, isConstRV, Ty.rtype, BT.isInt, constValueY, CV.toInt, CV.isIntKind,
+      htok, Expected.C03.checkFacts, hsign, cBinary, hrep, needsNZ, iop] <;>
+    (try (by_cases hq0 : q = 0 <;> simp [hq0, hrep])) <;>
+    (try (split <;> simp_all))
 
 end YaegiVerif.Proofs.C03
